@@ -22,6 +22,13 @@ impl Prop for C17 {
     fn cases(&self, tier: Tier) -> u64 {
         tier.pick(25_000, 400_000)
     }
+    fn fuzz_plan(&self, tier: Tier) -> Vec<(&'static str, u64)> {
+        if tier == Tier::Thorough {
+            vec![("prop", 100_000)]
+        } else {
+            vec![]
+        }
+    }
     fn choice_len(&self) -> usize {
         6000
     }
